@@ -26,6 +26,7 @@ CORPUS_GRAMMARS = ["g1", "g2", "p1", "p2", "p3", "c1", "c2", "c3", "o1", "o2", "
 LEMMAS = ["remove", "set_scope", "take_flag", "take_arg", "take_arg_adjacent", "take_pos", "take_cmd"]
 WRAPS = ["optional", "optional_catch", "many", "some", "count", "last", "fallback", "fallback_with"]
 LOOPS = ("many", "some", "count", "last")
+LAST_WINS = ("g2", "v2")  # grammars with a last-wins argument
 DECL = Decl("a", "b")
 
 
@@ -108,6 +109,10 @@ class CorpusOracle(TokOracle):
             report("value-not-from-an-item", words, (cls, payload), ["ok", "values come from items"])
             return
         lost = [v for v in value_ids if v.get_id() not in set(ids)]
+        if lost and g.name in LAST_WINS:
+            # `last()` consumes every occurrence and delivers only the final one: the earlier values are
+            # used up by design, not dropped
+            lost = []
         if lost:
             # a value item that is not delivered must have been used as a subcommand name
             if not cmd_names:
